@@ -158,6 +158,17 @@ def inet_lines(ctx):
             f["app_fields"] = "[4294967295]"
             f["packages"] = L([pkg_text(rng, 2)])
             lines.append(gen.H("iNET", gen.sets(f) + ["pack", "obs"]))
+    for nib in range(16):                                                     # every type / version nibble
+        for k in ("type", "version"):
+            f = {kk: str(rng.boundary(b)) for kk, b in INET_FIELDS}
+            f[k] = str(nib)
+            f["app_fields"] = L(rng.boundary(32) for _ in range(nib))
+            f["packages"] = L([pkg_text(rng, nib % 8)])
+            lines.append(gen.H("iNET", gen.sets(f) + ["pack", "obs"]))
+    f = {kk: str(rng.boundary(b)) for kk, b in INET_FIELDS}                    # eight packages, payload lengths 0..7
+    f["app_fields"] = "[]"
+    f["packages"] = L(pkg_text(rng, n) for n in range(8))
+    lines.append(gen.H("iNET", gen.sets(f) + ["pack", "obs"]))
     lines.append(gen.H("iNET", ["set app_fields [4294967296]", "pack"]))
     lines.append(gen.H("iNET", ["set packages [iNETPackage{flags=256}]", "pack"]))
     lines.append(gen.H("iNET", ["set packages [iNETPackage{flags=1};iNETPackage{definitionID=4294967296}]", "pack"]))
@@ -260,6 +271,19 @@ def npd_lines(ctx):
                 continue                                                      # not a dotted quad
             f["segments"] = L([seg_text("RS232Segment", seg_fields(rng, "RS232Segment", 2))])
             lines.append(gen.H("NPD", gen.sets(f) + ["pack", "obs"]))
+    for nib in range(16):                                                     # every version / header-length nibble
+        for k in ("version", "hdrlen"):
+            f = {kk: str(rng.boundary(b)) for kk, b in NPD_FIELDS}
+            f["datatype"] = "208"
+            f[k] = str(nib)
+            f["segments"] = L([seg_text("MIL1553Segment", seg_fields(rng, "MIL1553Segment", nib % 8))])
+            lines.append(gen.H("NPD", gen.sets(f) + ["pack", "obs"]))
+    for dt in list(DT_CLASS) + [0x00]:                                        # eight segments, payload lengths 0..7: every pad residue
+        cls = DT_CLASS.get(dt, "NPDSegment")
+        f = {kk: str(rng.boundary(b)) for kk, b in NPD_FIELDS}
+        f["datatype"] = str(dt)
+        f["segments"] = L(seg_text(cls, seg_fields(rng, cls, n)) for n in range(8))
+        lines.append(gen.H("NPD", gen.sets(f) + ["pack", "obs"]))
     # the constructor's defaults: no multicast address, no data type, no time stamp
     lines.append(gen.H("NPD", ["obs", "pack"]))
     lines.append(gen.H("NPD", ["set mcastaddr 1", "pack"]))
@@ -309,7 +333,8 @@ def pap_valid(rng):
 def pa_lines(ctx):
     rng = ctx.rng
     lines = []
-    for n in list(range(0, 26)) + [1400, 1401, 1402, 1403, 2032, 2036, 2040, 2044]:   # unaligned payloads are refused; 510 quadbytes overflow
+    # unaligned payloads are refused; quadbytes is a 9-bit field: 255, 256, 257, 510, 511 fit, 512 and 513 overflow
+    for n in list(range(0, 26)) + [1400, 1401, 1402, 1403] + [4 * (q - 2) for q in (255, 256, 257, 510, 511, 512, 513)]:
         f = pab_fields(rng)
         f["payload"] = hexb(rng.bytes_(n))
         lines.append(gen.H("ParserAlignedBlock", gen.sets(f) + ["pack", "obs"]))
@@ -326,6 +351,10 @@ def pa_lines(ctx):
     for cnt in range(0, 9):
         for _ in range(ctx.scale(3, 60)):
             lines.append(gen.H("ParserAlignedPacket", ["set parserblocks " + L(pab_text(pab_fields(rng)) for _ in range(cnt)), "pack", "obs"]))
+    for q in (255, 256, 257, 510, 511):
+        f = pab_fields(rng)
+        f["payload"] = hexb(rng.bytes_(4 * (q - 2)))
+        lines.append(gen.H("ParserAlignedPacket", ["set parserblocks " + L([pab_text(pab_fields(rng, 1)), pab_text(f), pab_text(pab_fields(rng, 0))]), "pack", "obs"]))
     lines.append(gen.H("ParserAlignedPacket", ["set parserblocks [ParserAlignedBlock{payload=x01020304};ParserAlignedBlock{payload=x01}]", "pack"]))
     lines.append(gen.H("ParserAlignedPacket", ["set numberofblocks 3", "set parserblocks [ParserAlignedBlock{payload=x01020304}]", "pack", "obs"]))
     return lines
@@ -580,17 +609,19 @@ def check_pa_layout(args):
         return "parser-aligned re-encode differs"
     return None
 
-def _typed_args(rng, cls):
+def _typed_args(rng, cls, n=None):
+    """n: data length (bytes; 16-bit words for ACQ) — the callers run it through 0..7 for every pad residue"""
+    n = rng.choice(RESIDUE_LENGTHS) if n is None else n
     if cls == "MIL1553Segment":
         return {"blockstatus": rng.boundary(16), "gap1": rng.boundary(8), "gap2": rng.boundary(8),
-                "data": rng.bytes_(rng.choice(RESIDUE_LENGTHS)).hex()}
+                "data": rng.bytes_(n).hex()}
     if cls == "ACQSegment":
         return {"sfid": rng.boundary(8), "cal": rng.randrange(2), "low7": rng.boundary(7), "reserved": rng.boundary(16),
-                "words": [rng.boundary(16) for _ in range(rng.randrange(0, 6))]}
+                "words": [rng.boundary(16) for _ in range(n % 8)]}
     if cls == "RS232Segment":
         return {"hi13": rng.boundary(13), "sync_bytes": [rng.boundary(8) for _ in range(rng.randrange(0, 8))],
-                "data": rng.bytes_(rng.choice(RESIDUE_LENGTHS)).hex()}
-    return {"payload": rng.bytes_(rng.choice(RESIDUE_LENGTHS)).hex()}
+                "data": rng.bytes_(n).hex()}
+    return {"payload": rng.bytes_(n).hex()}
 
 def oracles_C01(ctx, hints):
     rng = ctx.rng
@@ -632,9 +663,11 @@ def oracles_C01(ctx, hints):
             break
     for i in range(ctx.scale(60, 2000) * k):
         f = {kk: rng.boundary(b) for kk, b in INET_FIELDS}
-        app = [rng.boundary(32) for _ in range(rng.choice([0, 1, 2, 3, 15]))]
-        pkgs = [[rng.boundary(32), rng.boundary(8), rng.boundary(32), rng.bytes_(rng.choice(RESIDUE_LENGTHS)).hex()]
-                for _ in range(i % 5)]
+        f["type"], f["version"] = i % 16, (i // 16 + i) % 16                   # every nibble value
+        app = [rng.boundary(32) for _ in range(i % 16)]                        # every option word count 0..15
+        npk = 8 if i % 10 == 9 else i % 5
+        pkgs = [[rng.boundary(32), rng.boundary(8), rng.boundary(32),
+                 rng.bytes_((j + i) % 8 if i % 2 else rng.choice(RESIDUE_LENGTHS)).hex()] for j in range(npk)]
         if run("inet_layout", check_inet_layout, {"fields": f, "app_fields": app, "packages": pkgs},
                {"class": "iNET", "check": "layout"}):
             break
@@ -646,14 +679,18 @@ def oracles_C01(ctx, hints):
             continue
         cls = DT_CLASS.get(dt, "NPDSegment")
         f = {kk: rng.boundary(b) for kk, b in NPD_FIELDS}
+        f["version"] = (i // len(dts)) % 16                                    # every version nibble
+        nseg = 8 if (i // len(dts)) % 5 == 4 else (i // len(dts)) % 4 + (1 if i % 5 else 0)
         segs = [{"timedelta": rng.boundary(32), "errorcode": rng.boundary(8), "flags": rng.boundary(8),
-                 "typed": _typed_args(rng, cls)} for _ in range((i // len(dts)) % 4 + (1 if i % 5 else 0))]
+                 "typed": _typed_args(rng, cls, (j + i) % 8 if nseg == 8 else None)} for j in range(nseg)]
         if run("npd_layout", check_npd_layout, {"fields": f, "datatype": dt, "segs": segs},
                {"class": "NPD", "check": "layout", "segment_class": cls, "datatype": dt}):
             bad.add(dt)
     for i in range(ctx.scale(60, 2000) * k):
+        big = [255, 256, 257, 510, 511][(i // 6) % 5] - 2 if i % 6 == 5 else None   # the 9-bit count over its full width
         blocks = [[rng.random() < 0.5, rng.boundary(6), rng.boundary(8), rng.boundary(8), rng.boundary(32),
-                   rng.bytes_(4 * rng.choice([0, 1, 2, 3, 7])).hex()] for _ in range(i % 6)]
+                   rng.bytes_(4 * (big if (big is not None and j == 1) else rng.choice([0, 1, 2, 3, 7]))).hex()]
+                  for j in range(i % 6)]
         if run("parseraligned_layout", check_pa_layout, {"blocks": blocks}, {"class": "ParserAlignedPacket", "check": "layout"}):
             break
     ctx.count("oracle_evaluations", n)
@@ -682,19 +719,45 @@ C09_CLASSES = [("IENAQ", ienaq_valid), ("IENAD", _dn_valid("IENAD")), ("IENAN", 
                ("ParserAlignedBlock", pab_valid), ("ParserAlignedPacket", pap_valid)] + \
               [(c, _seg_valid(c)) for c in SEG_CLASSES]
 
+NPD_DTS = list(DT_CLASS) + [0x00, 0x51, 0xFF]
+
+def _pack_impl(cls, f):
+    a = run_line_impl(gen.H(cls, gen.sets(f) + ["pack"]))
+    r = a.split("|")[-1]
+    return bytes.fromhex(r[4:]) if r.startswith("ok:x") else None
+
 def _valid_packets(ctx):
+    """(class, bytes) of valid packets built on the implementation: every class, every NPD data type (plain
+       NPDSegment for 0x38 / 0x60 / unknown types, RS232, ACQ, 1553) with 1..3 segments, parser-aligned blocks
+       with the 9-bit count over its width"""
     rng = ctx.rng
     out = []
     for cls, valid in C09_CLASSES:
+        if cls == "NPD":
+            continue
         got = 0
         for _ in range(ctx.scale(12, 120)):
-            a = run_line_impl(gen.H(cls, gen.sets(valid(rng)) + ["pack"]))
-            r = a.split("|")[-1]
-            if r.startswith("ok:x"):
-                out.append((cls, bytes.fromhex(r[4:])))
+            b = _pack_impl(cls, valid(rng))
+            if b is not None:
+                out.append((cls, b))
                 got += 1
             if got >= ctx.scale(5, 50):
                 break
+    for dt in NPD_DTS:
+        cls = DT_CLASS.get(dt, "NPDSegment")
+        for cnt in ([1, 2, 3] if ctx.tier == "quick" else [0, 1, 1, 2, 2, 3, 3, 4, 5, 8]):
+            f = {k: str(rng.boundary(b)) for k, b in NPD_FIELDS}
+            f["datatype"] = str(dt)
+            f["segments"] = L(seg_text(cls, seg_fields(rng, cls, rng.randrange(0, 8))) for _ in range(cnt))
+            b = _pack_impl("NPD", f)
+            if b is not None:
+                out.append(("NPD", b))
+    for q in (255, 511):
+        f = pab_fields(rng)
+        f["payload"] = hexb(rng.bytes_(4 * (q - 2)))
+        b = _pack_impl("ParserAlignedPacket", {"parserblocks": L([pab_text(pab_fields(rng, 1)), pab_text(f)])})
+        if b is not None:
+            out.append(("ParserAlignedPacket", b))
     return out
 
 def _put(b, off, size, v):
@@ -713,8 +776,8 @@ def _c09_mutants(cls, b):
     """every length/count field at 0, 1, real-1, real+1, max (and the exact-fit / one-too-many values for
        element lengths, at every element position); buffer lengths declared-2 .. declared+2"""
     out = [b]
-    for d in (-2, -1, 1, 2):
-        out.append(b[:len(b) + d] if d < 0 else b + b"\x00" * d)
+    for d in (-8, -7, -6, -5, -4, -3, -2, -1, 1, 2, 4):
+        out.append(b[:max(0, len(b) + d)] if d < 0 else b + b"\x00" * d)
     if cls in ("IENAQ", "IENAD", "IENAN"):
         out += _field_variants(b, 2, 2)
     if cls == "IENAQ":
@@ -738,10 +801,10 @@ def _c09_mutants(cls, b):
         pos = 20
         while pos + 8 <= len(b):
             n = int.from_bytes(b[pos + 4:pos + 6], "big")
-            out += _field_variants(b, pos + 4, 2, (7, 8, 9, 10, 12, len(b) - pos, len(b) - pos + 1))
+            out += _field_variants(b, pos + 4, 2, (7, 8, 9, 10, 12, n + 4, n + 8, len(b) - pos, len(b) - pos + 1))
             pos += n + (-n % 4) if n >= 8 else 8
-        for cut in range(20, min(len(b), 34)):                 # packet cut inside a segment header, length field kept right
-            if cut % 4 == 0:
+        for cut in list(range(20, min(len(b), 34))) + [len(b) - 8, len(b) - 4]:   # packet cut inside a segment, length field kept right
+            if cut % 4 == 0 and 20 <= cut < len(b):
                 out.append(_put(b[:cut], 2, 2, cut // 4))
     if cls in SEG_CLASSES:
         out += _field_variants(b, 4, 2, (7, 8, 9, 10, 12, len(b), len(b) + 1))
@@ -752,7 +815,7 @@ def _c09_mutants(cls, b):
             w = int.from_bytes(b[pos:pos + 2], "big")
             q = w & 0x1FF
             rem = (len(b) - pos) // 4
-            for v in (0, 1, 2, 3, q - 1, q + 1, rem, rem + 1, 511):
+            for v in (0, 1, 2, 3, q - 1, q + 1, q + 2, rem, rem + 1, 511):
                 if 0 <= v <= 511 and v != q:
                     out.append(_put(b, pos, 2, (w & 0xFE00) | v))
             pos += 4 * q if q >= 2 else 8
@@ -765,7 +828,7 @@ def _c09_mutants(cls, b):
         pos = 24 + 4 * (b[0] & 0xF)
         while pos + 12 <= len(b):
             n = int.from_bytes(b[pos + 4:pos + 6], "big")
-            out += _field_variants(b, pos + 4, 2, (11, 12, 13, 16, len(b) - pos, len(b) - pos + 1))
+            out += _field_variants(b, pos + 4, 2, (11, 12, 13, 16, n + 4, n + 8, len(b) - pos, len(b) - pos + 1))
             pos += n + (-n % 4) if n >= 12 else 12
     if cls == "iNETPackage":
         out += _field_variants(b, 4, 2, (11, 12, 13, 16, len(b), len(b) + 1))
@@ -928,9 +991,10 @@ def check_accept_exact2(args):
         return verdict(len(b) >= 12 and n >= 12, "with length field %d" % n)
     return None
 
-def observe_truncation(cls, b):
-    """NOT part of C09 as stated (no check of these fields is documented): element length fields that
-       point past the end of the buffer are accepted and the element silently truncated"""
+def check_element_exact(args):
+    """accepted ⇒ never truncated or padded: every element (NPD segment, iNET package) the decoder returns
+       has exactly the length its own length field declares.  Returns (what, case) through `what`."""
+    cls, b = args["cls"], bytes.fromhex(args["buf"])
     a = ADAPTERS[cls]
     o = a.ctor()
     try:
@@ -938,24 +1002,40 @@ def observe_truncation(cls, b):
     except Exception:
         return None
     if cls == "NPD":
-        segs = _ref_segments(npd_dt_class(b[1]), b[4 * (b[0] & 0xF):]) or []
-        for sl, p in segs:
-            if sl != 8 + len(p):
-                return "NPD.unpack accepts %s: a segment declares %d bytes, %d are there; segmentlen is rewritten" % (hexb(b), sl, 8 + len(p))
-    if cls == "iNET":
-        pk = _ref_packages(b[24 + 4 * (b[0] & 0xF):]) or []
-        for n, p in pk:
-            if n != 12 + len(p):
-                return "iNET.unpack accepts %s: a package declares %d bytes, %d are there" % (hexb(b), n, 12 + len(p))
-        if int.from_bytes(b[12:16], "big") != len(b):
-            return "iNET.unpack accepts %s: message length field %d, buffer %d bytes" % (hexb(b), int.from_bytes(b[12:16], "big"), len(b))
+        elems = [(int.from_bytes(r[4:6], "big"), g) for r, g in _walk(b[4 * (b[0] & 0xF):], o.segments, 8)]
+        hdr, name = 8, "segment"
+    elif cls in SEG_CLASSES:
+        elems, hdr, name = [(int.from_bytes(b[4:6], "big"), o)], 8, "segment"
+    elif cls == "iNET":
+        elems = [(int.from_bytes(r[4:6], "big"), g) for r, g in _walk(b[24 + 4 * (b[0] & 0xF):], o.packages, 12)]
+        hdr, name = 12, "package"
+    elif cls == "iNETPackage":
+        elems, hdr, name = [(int.from_bytes(b[4:6], "big"), o)], 12, "package"
+    else:
+        return None
+    for declared, g in elems:
+        have = hdr + len(g.payload)
+        if declared != have:
+            case = "declared_lt_header" if declared < hdr else "declared_gt_available"
+            return "%s.unpack accepted %s in which a %s declares %d bytes but %d are returned (%s)" % (
+                cls, hexb(b) if len(b) <= 80 else hexb(b[:80]) + "...", name, declared, have, case)
     return None
+
+def _walk(rem, objs, hdr):
+    """pair each decoded element with the bytes it was decoded from (elements are laid end to end, each
+       rounded up to four bytes; the decoder's own view of the element length decides where the next starts)"""
+    out = []
+    for g in objs:
+        out.append((rem, g))
+        n = hdr + len(g.payload)
+        rem = rem[n + (-n % 4):]
+    return out
 
 def oracles_C09(ctx, hints):
     fails = []
     n = 0
     seen = set()
-    noted = set()
+    noted = False
     for cls, b in _valid_packets(ctx):
         for m in _c09_mutants(cls, b):
             args = {"cls": cls, "buf": m.hex()}
@@ -964,15 +1044,29 @@ def oracles_C09(ctx, hints):
             if w and cls not in seen:
                 seen.add(cls)
                 fails.append(Failure("accept_exact2", args, w, {"class": cls, "check": "accept_exact"}))
-            if cls in ("NPD", "iNET") and cls not in noted:
-                t = observe_truncation(cls, m)
-                if t:
-                    noted.add(cls)
-                    ctx.notes.append("observation (outside C09 as stated): " + t[:400])
+            if cls in ("NPD", "iNET", "iNETPackage") or cls in SEG_CLASSES:
+                w = check_element_exact(args)
+                if w:
+                    case = w.rsplit("(", 1)[1].rstrip(")")
+                    if (cls, case) not in seen:
+                        seen.add((cls, case))
+                        fails.append(Failure("element_exact", args, w,
+                                             {"class": cls, "check": "element_exact", "case": case,
+                                              "element": "package" if cls.startswith("iNET") else "segment"}))
+            if cls == "iNET" and not noted and len(m) >= 24 and int.from_bytes(m[12:16], "big") != len(m):
+                a = ADAPTERS[cls]
+                try:
+                    a.unpack(a.ctor(), m)
+                    noted = True
+                    ctx.notes.append("observation (iNET is not in C09's list of total-length checks): iNET.unpack accepts %s, "
+                                     "message length field %d, buffer %d bytes" % (hexb(m)[:120], int.from_bytes(m[12:16], "big"), len(m)))
+                except Exception:
+                    pass
     ctx.count("oracle_evaluations", n)
     return fails
 
 ORACLES["accept_exact2"] = check_accept_exact2
+ORACLES["element_exact"] = check_element_exact
 
 # =================================================================================== C14 (family-specific)
 def check_npd_mixed_segments_eq(args):
@@ -1050,3 +1144,30 @@ def corr_C14(ctx):
         fl = rng.choice(["0", "1"])
         lines.append(gen.E("iNET", ["set flags " + fl, "set packages " + L(pa)], ["set flags " + rng.choice(["0", "1"]), "set packages " + L(pb)]))
     return lines
+
+# =================================================================================== C08 (family-specific stream)
+def corr_C08(ctx):
+    """the malformed stream built per class: for every class and every NPD data type (plain NPDSegment for
+       0x38 / 0x60 / unknown, RS232, ACQ, 1553) each length/count field at 0, 1, real±1, max and the exact-fit /
+       one-too-many values at every element position, a last element declaring 1–2 words too many, tails cut by
+       1..8 bytes, extension by 1, 2, 4 bytes"""
+    return corr_C09(ctx)
+
+def oracles_C08(ctx, hints):
+    from ..generic import check_total
+    fails = []
+    n = 0
+    seen = set()
+    for cls, b in _valid_packets(ctx):
+        if cls in seen:
+            continue
+        for m in _c09_mutants(cls, b):
+            args = {"cls": cls, "opts": [], "buf": m.hex()}
+            n += 1
+            w = check_total(args)
+            if w:
+                seen.add(cls)
+                fails.append(Failure("total", args, w, {"class": cls, "check": "total"}))
+                break
+    ctx.count("oracle_evaluations", n)
+    return fails
